@@ -5,6 +5,7 @@ import GqlVerif.Proofs.C01RecursiveE
 import GqlVerif.Proofs.C01RecursiveV
 import GqlVerif.Proofs.C01Rust
 import GqlVerif.Proofs.C01VariantSpread
+import GqlVerif.Proofs.C01VariantSpreadG
 open GqlVerif.C03
 #print axioms ok_iff_accepts
 #print axioms null_at_non_null_rejected
@@ -55,3 +56,9 @@ open GqlVerif.C03
 #print axioms GqlVerif.C01.E2E.ws_precise
 #print axioms GqlVerif.C01.E2E.bs_precise
 #print axioms GqlVerif.C01.E2E.variantspread_alias_rejects_wrong_kind
+-- exact acceptance for the extended classes (Proofs/C01VariantSpread{F,G}.lean)
+#print axioms GqlVerif.C01.E2E.variantspread2_precise_iff
+#print axioms GqlVerif.C01.E2E.variantspread2_precise
+#print axioms GqlVerif.C01.E2E.mi_precise
+#print axioms GqlVerif.C01.E2E.ls_precise
+#print axioms GqlVerif.C01.E2E.a2_precise
